@@ -41,7 +41,9 @@ BIG = [
 
 def BOUNDS(tier):
     return {"seeds": {"rich": 1, "mini": 1 if tier == "quick" else 2, "empty": 3, "mini-reopened": 1}, "crash_points": ["flush", "close"],
-            "big_arrays": len(BIG)}
+            "big_arrays": len(BIG),
+            "configurations": ["default", "file compression DeflateNormal", "file compression No", "automatic timestamps off at open",
+                               "automatic timestamps toggled off later", "closed and reopened read-write", "a second (read-only) handle open in the writer"]}
 
 
 def cases(tier):
@@ -71,6 +73,16 @@ def cases(tier):
             for point in ("flush", "close"):
                 out.append({"seed": "mini", "ops": h, "point": point, "pre": None, "fcomp": True})
                 out.append({"seed": "mini", "ops": h, "point": point, "pre": "closed-and-reopened-rw", "fcomp": True})
+    # every open-time / session configuration the library offers: automatic timestamps switched off when the
+    # file is opened, or toggled off after the seed was built; file compression No
+    for cfgname in ("auto-ts-off-at-open", "auto-ts-toggled-off", "file-compression-no", "second-handle-open"):
+        for h in explorer.enumerate_histories("mini", 1, THIN):
+            if h[-1][0] != "reopen":
+                for point in ("flush", "close"):
+                    out.append({"seed": "mini", "ops": h, "point": point, "pre": None, "cfg": cfgname})
+        for b in BIG[:4]:
+            for point in ("flush", "close"):
+                out.append({"seed": "empty", "ops": [b], "point": point, "pre": None, "cfg": cfgname})
     return out
 
 
@@ -110,6 +122,25 @@ def child(path, side, case):
             s.f = nix.File.open(path, nix.FileMode.Overwrite, compression=nix.Compression.DeflateNormal)
             if explorer.SEEDS[case["seed"]] is not None:
                 explorer.SEEDS[case["seed"]](s.f)
+        elif case.get("cfg"):
+            env.install_seams()
+            env.reset_execution()
+            cfg = case["cfg"]
+            s = O.Session.__new__(O.Session)
+            s.path, s.auto_ts, s.caches, s.mode, s.twin = path, cfg != "auto-ts-off-at-open", {"A": {}, "B": {}}, "rw", None
+            kw = {}
+            if cfg == "auto-ts-off-at-open":
+                kw["auto_update_timestamps"] = False
+            if cfg == "file-compression-no":
+                kw["compression"] = nix.Compression.No
+            s.f = nix.File.open(path, nix.FileMode.Overwrite, **kw)
+            if explorer.SEEDS[case["seed"]] is not None:
+                explorer.SEEDS[case["seed"]](s.f)
+            if cfg == "auto-ts-toggled-off":
+                s.f.auto_update_timestamps = False
+            if cfg == "second-handle-open":
+                # the same file is open a second time in the writer process (read-only handle, never used)
+                s.keep = nix.File.open(path, nix.FileMode.ReadOnly)
         else:
             s = O.Session(path=path, build=explorer.SEEDS[case["seed"]])
         if case.get("pre") == "closed-and-reopened-rw":
@@ -167,7 +198,8 @@ def run_case(case):
         opk = explorer.opsig(case["ops"][-1]) if case["ops"][-1][0] != "big" else "big:%s:%s" % (case["ops"][-1][1], "gzip" if case["ops"][-1][2] else "raw")
         if rec["status"] == "ok":
             r.nontrivial = 1
-        r.outcomes.add("%s:%s%s" % (case["point"], rec["status"].split(":")[0], ":file-deflate" if case.get("fcomp") else ""))
+        r.outcomes.add("%s:%s%s%s" % (case["point"], rec["status"].split(":")[0], ":file-deflate" if case.get("fcomp") else "",
+                                      ":" + case["cfg"] if case.get("cfg") else ""))
         for mode, label in ((nix.FileMode.ReadOnly, "ro"), (nix.FileMode.ReadWrite, "rw")):
             r.transitions += 1
             try:
